@@ -179,12 +179,26 @@ var solvers = []solverSpec{
 	}},
 }
 
+// probeSolver decides Houdini candidates and vacuity probes: E-matching only with a
+// small resource budget (about 3 s of CPU on a 1.5 MB query).
+const rlimitProbe = 8000000
+
+var probeSolver = solverSpec{"z3-new-5.1.0-ematch-probe", func(f string, t int) []string {
+	return []string{"z3-new", fmt.Sprintf("-T:%d", t), fmt.Sprintf("rlimit=%d", rlimitProbe), "smt.mbqi=false", "-smt2", f}
+}}
+
 func runOne(sp solverSpec, file string, timeoutS int, ctx context.Context) SolverResult {
 	start := time.Now()
-	argv := sp.argv(file, timeoutS)
-	cctx, cancel := context.WithTimeout(ctx, time.Duration(timeoutS+2)*time.Second)
+	// timeoutS is a CPU-time cap (RLIMIT_CPU of the solver process), not a wall-clock
+	// one: on an overloaded machine a solver that is merely starved must not turn into
+	// an "unknown" (and a baseline obligation into an alarm). The wall-clock limits
+	// (-T / --tlimit / context) are a 20x safety net against a wedged process only.
+	wallS := timeoutS*20 + 60
+	argv := sp.argv(file, wallS)
+	cctx, cancel := context.WithTimeout(ctx, time.Duration(wallS+5)*time.Second)
 	defer cancel()
-	cmd := exec.CommandContext(cctx, argv[0], argv[1:]...)
+	shArgs := append([]string{"-c", `ulimit -t "$0"; exec "$@"`, fmt.Sprint(timeoutS)}, argv...)
+	cmd := exec.CommandContext(cctx, "sh", shArgs...)
 	var out bytes.Buffer
 	cmd.Stdout = &out
 	cmd.Stderr = &out
@@ -202,6 +216,8 @@ func runOne(sp solverSpec, file string, timeoutS int, ctx context.Context) Solve
 		v = "unknown"
 	case strings.Contains(first, "timeout") || cctx.Err() != nil:
 		v = "timeout"
+	case first == "" && cmd.ProcessState != nil && !cmd.ProcessState.Success():
+		v = "timeout" // killed by the CPU-time limit (SIGXCPU / SIGKILL) before answering
 	}
 	if len(raw) > 20000 {
 		raw = raw[:20000] + "\n...[truncated]"
@@ -250,12 +266,14 @@ func solveRace(script string, name string, timeoutS int, all bool, seed int) (ve
 			os.WriteFile(f, []byte(cvc5Dialect(script)), 0o644)
 		}
 		ematch := strings.Contains(sp.name, "ematch")
-		tmo := timeoutS * 12 // wall-clock safety net only; the real budget is rlimit
-		if tmo > 90 {
-			// MBQI configurations can grind for minutes on the aggregated obligations of
-			// the large traversal functions without consuming their rlimit budget; a
-			// cross-check that does not answer within 90 s is recorded as a timeout
-			tmo = 90
+		// CPU-time cap (see runOne); the real budget of the E-matching configurations is
+		// their rlimit, which they exhaust long before this. MBQI configurations can grind
+		// for minutes on the aggregated obligations of the large traversal functions
+		// without consuming their rlimit budget: a cross-check that does not answer within
+		// 150 s of CPU is recorded as a timeout.
+		tmo := 150
+		if !ematch && timeoutS*12 < tmo {
+			tmo = timeoutS * 12
 		}
 		if strings.HasPrefix(sp.name, "cvc5") {
 			tmo = timeoutS * 2
